@@ -323,12 +323,16 @@ def gen_filter_bank(rng, tier):
         s, fb = _fb_int(w)
         lvl = level if level is not None else pywt.dwtn_max_level((n, n2), w)
         out.append({'cls': 'WaveletOp', 'wavelet': w, 'n': n, 'n2': n2, 'level': level, 'model_level': lvl, 'scale_exp': s, 'filters': fb})
+    # three dimensions (wavedec3 / waverec3), explicit level (the highest possible level 0 in 3-D is open finding KF-07)
+    for w, n, n2, n3, level in [('haar', 4, 4, 4, 1), ('haar', 4, 2, 6, 1)] + ([('db2', 4, 4, 4, 1), ('haar', 4, 4, 4, 2), ('sym2', 4, 6, 4, 1)] if tier != 'quick' else []):
+        s, fb = _fb_int(w)
+        out.append({'cls': 'WaveletOp', 'wavelet': w, 'n': n, 'n2': n2, 'n3': n3, 'level': level, 'model_level': level, 'scale_exp': s, 'filters': fb})
     return out
 
 
 def impl_filter_bank(c):
     import mrpro.operators as ops
-    dom = (c['n'],) if 'n2' not in c else (c['n'], c['n2'])
+    dom = (c['n'],) if 'n2' not in c else ((c['n'], c['n2']) if 'n3' not in c else (c['n'], c['n2'], c['n3']))
     op = ops.WaveletOp(domain_shape=dom, dim=tuple(range(-len(dom), 0)), wavelet_name=c['wavelet'], level=c['level'])
     F, G, out_shape = opzoo.dense(op, list(dom), torch.float64)
     return {'F': np.real(F).T.tolist(), 'G': np.real(G).T.tolist(), 'out': out_shape, 'shapes': [list(map(int, sh)) for sh in op.coefficients_shape]}
@@ -336,7 +340,9 @@ def impl_filter_bank(c):
 
 def coq_filter_bank(c):
     dl, dh, rl, rh = (vlib.zlist(f) for f in c['filters'])
-    if 'n2' in c:
+    if 'n3' in c:
+        A = f'(wavedec3_Z {natlit(c["model_level"])} {natlit(len(c["filters"][0]))} {natlit(c["n"])} {natlit(c["n2"])} {natlit(c["n3"])} {dl} {dh} {rl} {rh})'
+    elif 'n2' in c:
         A = f'(wavedec2_Z {natlit(c["model_level"])} {natlit(len(c["filters"][0]))} {natlit(c["n"])} {natlit(c["n2"])} {dl} {dh} {rl} {rh})'
     else:
         A = f'(wavedec_Z {natlit(c["model_level"])} {natlit(len(c["filters"][0]))} {natlit(c["n"])} {dl} {dh} {rl} {rh})'
@@ -346,15 +352,16 @@ def coq_filter_bank(c):
 def _band_scales(c, ncoef):
     """coefficient j of the stack [a_l, d_l, ..., d_1] went through (level - band + 1) filter stages, each scaled by 2^s"""
     L, n, lvl = len(c['filters'][0]), c['n'], c['model_level']
-    n2, two = c.get('n2', 1), 'n2' in c
+    n2, two, n3, three = c.get('n2', 1), 'n2' in c, c.get('n3', 1), 'n3' in c
     sizes = []
     for _ in range(lvl):
         n = (n + L - 1) // 2
         n2 = (n2 + L - 1) // 2 if two else 1
-        sizes.append(n * n2)
-    nb = 3 if two else 1           # detail bands per level; in 2-D every level applies two filter stages
-    k = 2 if two else 1
-    depth = ([k * lvl] * sizes[-1] + [k * d for d in range(lvl, 0, -1) for _ in range(nb * sizes[d - 1])]) if lvl else [0] * (c['n'] * c.get('n2', 1))
+        n3 = (n3 + L - 1) // 2 if three else 1
+        sizes.append(n * n2 * n3)
+    nb = 7 if three else (3 if two else 1)     # detail bands per level; in d dimensions every level applies d filter stages
+    k = 3 if three else (2 if two else 1)
+    depth = ([k * lvl] * sizes[-1] + [k * d for d in range(lvl, 0, -1) for _ in range(nb * sizes[d - 1])]) if lvl else [0] * (c['n'] * c.get('n2', 1) * c.get('n3', 1))
     return depth if len(depth) == ncoef else None
 
 
@@ -392,12 +399,12 @@ def oracle_filter_bank(c, o):
     D = np.abs(G - F.T)
     if D.size and D.max() > 1e-9:
         i, j = np.unravel_index(np.argmax(D), D.shape)
-        return f'<A e_{j}, e_{i}> = {F[j, i]} but <e_{j}, A^H e_{i}> = {G[i, j]} ({"2" if "n2" in c else "1"}-D WaveletOp {c["wavelet"]}, n={c["n"]}{"x" + str(c["n2"]) if "n2" in c else ""}, level={c["level"]})'
+        return f'<A e_{j}, e_{i}> = {F[j, i]} but <e_{j}, A^H e_{i}> = {G[i, j]} ({"3" if "n3" in c else ("2" if "n2" in c else "1")}-D WaveletOp {c["wavelet"]}, n={c["n"]}{"x" + str(c["n2"]) if "n2" in c else ""}{"x" + str(c["n3"]) if "n3" in c else ""}, level={c["level"]})'
     return None
 
 
 def descr_filter_bank(c):
-    d = descr({'cls': 'WaveletOp', 'wavelet': c['wavelet'], 'domain': [c['n']] + ([c['n2']] if 'n2' in c else []), 'level': c['level']})
+    d = descr({'cls': 'WaveletOp', 'wavelet': c['wavelet'], 'domain': [c['n']] + ([c['n2']] if 'n2' in c else []) + ([c['n3']] if 'n3' in c else []), 'level': c['level']})
     return d
 
 
@@ -504,5 +511,5 @@ FAMILIES = [
            theorem='(implementation-level identity G = F^H)'),
     Family('wavelet_filter_bank', gen_filter_bank, impl_filter_bank, coq_filter_bank,
            'From MrVerif Require Import Base.Prelude Base.StarRing Base.Sums Model.OpAlg Model.Wavelet.', cmp_filter_bank, oracle_filter_bank,
-           descr=descr_filter_bank, shard=6, theorem='C01_wavelet_multilevel, C01_wavelet_2d, C01_wavelet_adjoint_iff'),
+           descr=descr_filter_bank, shard=6, theorem='C01_wavelet_multilevel, C01_wavelet_2d, C01_wavelet_3d, C01_wavelet_adjoint_iff'),
 ]
